@@ -42,9 +42,9 @@ type goSpec struct {
 	key    string              // two specs with the same key must be Equal, with different keys not
 	inQ    bool                // every given value is an instance of the declared attribute type
 	hasGet bool
-	// the spec meets a KNOWN finding (findings/C17.json): the class its failure is reported under
-	// (C17-typedname-undef-authority: an explicit `authority => undef`; C17-deferred-arguments-undef: `arguments` left
-	// out or given as undef)
+	// the spec meets a KNOWN finding (findings/C17.json): the class its failure is reported under.  None at present:
+	// C17-typedname-undef-authority (an explicit `authority => undef`) is fixed by 8e14ef3, C17-deferred-arguments-undef
+	// (`arguments` left out or given as undef) by fa7b8e6 — those specs are judged on every law like the rest.
 	known string
 }
 
@@ -129,10 +129,8 @@ func goSpecOf(kind string, e sx.Sexp) *goSpec {
 				s.expect["authority"] = auth
 			}
 		}
+		// (an explicit `authority => undef` is the runtime authority, like an authority left out: fix 8e14ef3)
 		s.key = strings.ToLower(eff + "/" + ns + "/" + strings.TrimPrefix(name, "::"))
-		if n > 2 && auth == px.Undef {
-			s.known = "goobj-tname-undef-authority"
-		}
 	case "deferred":
 		if len(a) != 3 {
 			panic(fmt.Errorf("bad deferred spec %s", e))
@@ -154,15 +152,14 @@ func goSpecOf(kind string, e sx.Sexp) *goSpec {
 		s.pos = []px.Value{types.WrapString(name), args}[:n]
 		s.names = []string{"name", "arguments"}[:n]
 		s.expect["name"] = s.pos[0]
-		s.expect["arguments"] = px.Undef
-		if n > 1 {
+		// the declared default of `arguments` is the empty array, and an explicit undef (which the declared type
+		// Optional[Array[Any]] admits) means no arguments too: fix fa7b8e6
+		s.expect["arguments"] = px.Value(px.EmptyArray)
+		if n > 1 && args != px.Undef {
 			s.expect["arguments"] = args
 		}
 		s.key = name + "|" + s.expect["arguments"].String()
 		s.inQ = deferredName(name)
-		if s.expect["arguments"] == px.Undef {
-			s.known = "goobj-deferred-arguments-undef"
-		}
 	case "tags":
 		var es []*types.HashEntry
 		var ks []string
@@ -383,7 +380,7 @@ func execGoObj(c px.Context, args []sx.Sexp) core.Result {
 			switch {
 			case c == "fault":
 				return 0
-			case c == "goobj-tname-undef-authority" || c == "goobj-deferred-arguments-undef":
+			case strings.HasPrefix(c, "known-"): // (the class of a spec that meets a known finding: none at present)
 				return 2
 			}
 			return 1
@@ -424,18 +421,6 @@ func genGoObj(g *core.G) {
 			g.Emit("@goobj " + kind + " (" + strings.Join(specs[i:j], " ") + ")")
 		}
 	}
-	// specs that meet a known finding go into ops of their own (one spec each): the rest stays judged on every law
-	emitSplit := func(kind string, specs []string, per int, known func(string) bool) {
-		var rest []string
-		for _, s := range specs {
-			if known(s) {
-				g.Emit("@goobj " + kind + " (" + s + ")")
-			} else {
-				rest = append(rest, s)
-			}
-		}
-		emit(kind, rest, per)
-	}
 	emit("param", ps, 12)
 	for k := 0; k < 6*g.Scale; k++ { // random groups: pairs from everywhere
 		var grp []string
@@ -457,7 +442,7 @@ func genGoObj(g *core.G) {
 			}
 		}
 	}
-	emitSplit("tname", ts, 10, func(s string) bool { return strings.Contains(s, " u 3)") })
+	emit("tname", ts, 10)
 	// Deferred
 	var ds []string
 	for _, name := range []string{"f", "$v", "a::b", "my_fn"} {
@@ -469,7 +454,7 @@ func genGoObj(g *core.G) {
 			ds = append(ds, fmt.Sprintf("(%s %s %d)", hex(name), arg, n))
 		}
 	}
-	emitSplit("deferred", ds, 12, func(s string) bool { return strings.Contains(s, " u ") })
+	emit("deferred", ds, 12)
 	// TagsAnnotation
 	var gs []string
 	for _, tg := range []string{"", "(K V)", "(K W)", "(K V) (L W)", "(L W) (K V)", "(tags V)"} {
